@@ -50,7 +50,8 @@ CHECK = Check(
     ),
     assumptions=[
         "P4: sensing objects and clouds are in base_link",
-        "P1: ground truths of a frame sit on distinct grid cells (positions pairwise distinct)",
+        "P1 relaxed for sensing: ground truths of a frame sit on distinct grid cells, except that one annotation may have a twin at "
+        "exactly its pose with another size and id (the sensing pipeline keeps objects apart by identity)",
         "P3: positive box sizes; computed scale factors are positive (box_scale_* in 0.5..2, objects up to ~220 m away; the far end of the scale line is flattened when it would drop below 0.25)",
         "margin rule: a row whose reference margin to a face / polygon edge / z bound is <= 1e-6 m (float32 clouds: "
         "1e-5 * max(1, |coordinate|)) is classified boundary and either answer is accepted",
@@ -256,6 +257,13 @@ def frame_cases(draw, tier, manager):
         )
         if draw(st.integers(0, 4)) == 0:
             gt[-1]["pr"] = [draw(fl(-0.4, 0.4)), draw(fl(-0.4, 0.4))]  # annotated box with roll / pitch
+    if gt and len(gt) < max_gt and draw(st.integers(0, 3)) == 0:
+        # a second annotation at exactly the pose of another one (nested boxes around one centre: other size, other id):
+        # still a separate ground-truth object with its own verdict
+        g = gt[draw(st.integers(0, len(gt) - 1))]
+        f = draw(st.sampled_from([0.5, 0.7, 1.4, 2.0]))
+        twin = dict(g, size=[g["size"][0] * f, g["size"][1] * f, g["size"][2]], uuid=f"g{len(gt)}", fill=draw(st.integers(0, 4)))
+        gt.append(twin)
     sc = st.one_of(st.just(1.0), fl(0.5, 2.0))
     cfg = {
         "s0": draw(sc),
